@@ -44,6 +44,9 @@ def mats(rng):
     idx = [0, 2, 3, 6]
     Z[np.ix_(idx, idx)] = gen.poisson_like(rng, 4)
     out.append(('zero-rows-cols-7', Z, 'singular-zero'))
+    # the same matrix with its zero rows / columns STORED as explicit zeros (what a BSR -> CSR conversion or a
+    # Galerkin product with padded blocks produces)
+    out.append(('zero-rows-cols-7/explicit-zeros', Z.copy(), 'singular-zero'))
     S = gen.poisson_like(rng, 5)
     S = S - np.diag(S.sum(1)) * 0  # keep
     L = np.diag(np.array(S - np.diag(np.diag(S))).sum(1) * -1) + (S - np.diag(np.diag(S)))   # pure graph Laplacian: singular
@@ -58,6 +61,9 @@ def run(ctx):
     for mname, Ad, kind in mats(rng):
         n = Ad.shape[0]
         A = sp.csr_array(Ad)
+        if mname.endswith('/explicit-zeros'):
+            A = sp.csr_array(np.ones_like(Ad))
+            A.data[:] = np.asarray(Ad).ravel()          # every entry stored, zeros included
         cplx = np.iscomplexobj(Ad)
         solvers = ['pinv', 'lu', 'cholesky', 'splu', ('pinv', {}), None,
                    'cg', 'gmres', 'bicgstab', 'gauss_seidel', 'jacobi', 'sor', 'block_gauss_seidel', 'richardson',
